@@ -11,11 +11,13 @@
 (***************************************************************************)
 EXTENDS CppImpl, Json, IOUtils, TLC
 Rec == ndJsonDeserialize(IOEnv.TRACE)
-VARIABLES g, l
-tvars == <<g, l>>
-TInit == g = Start /\ l = 1
+VARIABLES g, l, ln     \* ln: last physical line of the main file consumed so far (line accounting)
+tvars == <<g, l, ln>>
+TInit == g = Start /\ l = 1 /\ ln = 0
 E == Rec[l]
-IsEv(K) == l <= Len(Rec) /\ E.kind \in K /\ l' = l + 1
+\* every logical line starts right after the previous one ended and spans first..line (splices)
+Lines == IF E.kind = "begin" THEN ln' = 0 ELSE E.first = ln + 1 /\ E.line >= E.first /\ ln' = E.line
+IsEv(K) == l <= Len(Rec) /\ E.kind \in K /\ l' = l + 1 /\ Lines
 Agrees == E.before = g.state /\ E.after = g'.state /\ E.depth = Len(g'.stack)
 TBegin == IsEv({"begin"}) /\ g' = Start
 TOpen  == IsEv({"if", "ifdef", "ifndef"}) /\ (\E c \in BOOLEAN : g' = Open(g, c)) /\ Agrees /\ E.emitted = 0
